@@ -186,6 +186,11 @@ func streamC02(c *Ctx) {
 			addIdx(2)
 			emitQueries(10)
 			lines = append(lines, J{"k": "dump"})
+			if hN%2 == 1 {
+				var lab string
+				lines, lab = varyNames(g, lines, []string{twins[g.pick(4)], twins[g.pick(4)]})
+				c.Count(lab)
+			}
 			o := runHistory(dr, im, lines, HistOpts{})
 			recordHistory(c, lines, &o, be)
 			if o.Index >= 0 {
@@ -687,6 +692,11 @@ func streamC09(c *Ctx) {
 					lines = append(lines, l)
 				}
 			}
+			if hN%3 == 2 {
+				var lab string
+				lines, lab = varyNames(g, lines, h.Colls)
+				c.Count(lab)
+			}
 			o := runHistory(dr, im, lines, HistOpts{})
 			recordHistory(c, lines, &o, be)
 			if o.Index >= 0 {
@@ -696,70 +706,168 @@ func streamC09(c *Ctx) {
 				}
 			}
 			// self-relative oracle on the implementation
-			groups := map[int][]int{}
-			for i, ln := range lines {
-				if n, ok := ln["grp"]; ok {
-					groups[asInt(n)] = append(groups[asInt(n)], i)
+			impl := make([]string, len(lines))
+			ties := make([]bool, len(lines))
+			for i := range lines {
+				impl[i] = o.Results[i].Impl
+				ties[i] = hasTies(o.Results[i].All)
+			}
+			if !c09SelfRelative(c, lines, impl, ties, be) {
+				im.Destroy()
+				return
+			}
+		}
+		// rounding neighbours, systematically: an indexed field holding integers that share a float64 image (the index key),
+		// times on both sides of 1970, floats next to them - every comparison with every one of them as literal, with and
+		// without a window; the derived reads must agree whatever the index returns as candidates
+		{
+			vals := []interface{}{int64(1 << 53), int64(1<<53 + 1), int64(1<<53 + 2), float64(1 << 53), int64(math.MaxInt64), int64(math.MaxInt64 - 1), uint64(1 << 63), uint64(1<<63 + 5),
+				uint64(math.MaxUint64), uint64(math.MaxUint64 - 1), int64(math.MinInt64), int64(math.MinInt64 + 1), float64(-(1 << 63)), int64(-(1 << 53)), int64(-(1<<53 + 1)), int64(7),
+				mkTime(-1, 0), mkTime(0, 0), mkTime(1, 0), boundaryTimes()[2], boundaryTimes()[6], nil, "s"}
+			lines := []J{opLine("createCollection", J{"coll": hx("rn")}), opLine("createIndex", J{"coll": hx("rn"), "field": hx("x")})}
+			docs := []interface{}{}
+			for j, v := range vals {
+				docs = append(docs, encDoc(map[string]interface{}{"_id": fixedId(j + 1), "x": v, "k": int64(j)}))
+			}
+			lines = append(lines, opLine("insert", J{"coll": hx("rn"), "docs": docs}))
+			grp := 0
+			for _, lit := range vals {
+				for _, op := range []string{"eq", "ge", "le", "gt", "lt"} {
+					q := J{"coll": hx("rn"), "crit": J{"cmp": []interface{}{op, hx("x"), J{"lit": encValue(lit)}}}}
+					if grp%7 == 3 {
+						q["skip"] = 1
+						q["limit"] = 2
+					}
+					grp++
+					for _, name := range []string{"findAll", "count", "exists", "findFirst", "forEach"} {
+						lines = append(lines, opLine(name, J{"q": q, "grp": grp}))
+					}
 				}
 			}
-			for _, idxs := range groups {
-				var fa []string
-				okFA := false
-				for _, i := range idxs {
-					if lines[i]["op"] == "findAll" {
-						fa, okFA = splitDocs(o.Results[i].Impl)
-					}
-				}
-				if !okFA {
+			im.Reset()
+			impl := make([]string, len(lines))
+			for i, ln := range lines {
+				impl[i] = im.Exec(ln, -1, false).Line
+			}
+			c.Count("rounding-neighbour-cells")
+			if !c09SelfRelative(c, lines, impl, make([]bool, len(lines)), be) {
+				im.Destroy()
+				return
+			}
+		}
+		// the same oracle on the implementation alone, over the WHOLE value domain (integers of any magnitude, times
+		// before 1970): there the index orders differently from Compare (the two known findings of C01/C02/C08), but
+		// the derived reads of one query still have to agree with each other, whatever plan serves them
+		for hN := 0; hN < c.N(60, 800); hN++ {
+			g := NewGen(c.Rng, Domain{})
+			h := NewHistGen(g, 2, 2)
+			h.Focus = []string{indexable[g.pick(len(indexable))]}
+			base := h.History(HistCfg{Ops: 14, QueriesPer: 0, Indexes: true, IndexHeavy: true})
+			lines := []J{}
+			grp := 0
+			for _, ln := range base {
+				lines = append(lines, ln)
+				if ln["k"] != "op" {
 					continue
 				}
-				q, _ := qOf(lines[idxs[0]])
-				lim := qInt(q, "limit", -1)
-				for _, i := range idxs {
-					r := o.Results[i].Impl
-					bad := ""
-					switch lines[i]["op"] {
-					case "count":
-						if r != fmt.Sprintf("ok int %d", len(fa)) {
-							bad = "Count != len(FindAll)"
-						}
-					case "exists":
-						if lim != 0 && r != "ok bool "+b01(len(fa) > 0) {
-							bad = "Exists != (len(FindAll) > 0)"
-						}
-					case "findFirst":
-						if lim != 0 && !(qSorted(q) && hasTies(o.Results[i].All)) {
-							want := "ok doc none"
-							if len(fa) > 0 {
-								want = "ok doc " + fa[0]
-							}
-							if r != want {
-								bad = "FindFirst is not the first element of FindAll"
-							}
-						}
-					case "forEach":
-						if docs, ok := splitDocs(r); ok && !(qSorted(q) && hasTies(o.Results[i].All)) {
-							want := fa
-							if n, ok := lines[i]["stopAfter"]; ok && asInt(n) < len(fa) {
-								want = fa[:asInt(n)]
-							}
-							if strings.Join(docs, ";") != strings.Join(want, ";") {
-								bad = "ForEach does not visit the FindAll sequence (or does not stop)"
-							}
-						}
-					}
-					if bad != "" {
-						c.Violation(&Replay{Backend: be, Stream: "history", Case: toIfaces(lines[:i+1]), FirstDivergence: i,
-							Expected: []string{"FindAll: " + strings.Join(fa, ";")}, Actual: []string{r}, Note: bad})
-						im.Destroy()
-						return
+				q := h.Query(h.coll())
+				if g.pick(3) != 0 {
+					// one comparison of a focus field with a pool value (the integer extremes and neighbours are in the pool)
+					q["crit"] = J{"cmp": []interface{}{[]string{"eq", "ge", "le", "gt", "lt"}[g.pick(5)], hx(h.Focus[0]), J{"lit": encValue(h.val())}}}
+					if g.pick(2) == 0 {
+						delete(q, "sort")
 					}
 				}
-				if len(fa) > 0 {
-					c.NonTrivial(fmt.Sprint(q) + be)
+				grp++
+				for _, name := range []string{"findAll", "count", "exists", "findFirst", "forEach"} {
+					lines = append(lines, opLine(name, J{"q": q, "grp": grp}))
 				}
+			}
+			im.Reset()
+			impl := make([]string, len(lines))
+			ties := make([]bool, len(lines))
+			for i, ln := range lines {
+				if ln["k"] == "op" {
+					impl[i] = im.Exec(ln, -1, false).Line
+					if q, ok := qOf(ln); ok && qSorted(q) {
+						ties[i] = true // no specification at hand to tell: sorted answers are compared as counts only
+					}
+				}
+			}
+			c.Count("impl-only-history")
+			if !c09SelfRelative(c, lines, impl, ties, be) {
+				im.Destroy()
+				return
 			}
 		}
 		im.Destroy()
 	}
+}
+
+// c09SelfRelative: the derived reads of one query group compared with the group's FindAll, on the implementation's
+// own answers.  ties[i]: the (sorted) answer has tie classes, so its order is not determined.
+func c09SelfRelative(c *Ctx, lines []J, impl []string, ties []bool, be string) bool {
+	groups := map[int][]int{}
+	for i, ln := range lines {
+		if n, ok := ln["grp"]; ok {
+			groups[asInt(n)] = append(groups[asInt(n)], i)
+		}
+	}
+	for _, idxs := range groups {
+		var fa []string
+		okFA := false
+		for _, i := range idxs {
+			if lines[i]["op"] == "findAll" {
+				fa, okFA = splitDocs(impl[i])
+			}
+		}
+		if !okFA {
+			continue
+		}
+		q, _ := qOf(lines[idxs[0]])
+		lim := qInt(q, "limit", -1)
+		for _, i := range idxs {
+			r := impl[i]
+			bad := ""
+			switch lines[i]["op"] {
+			case "count":
+				if r != fmt.Sprintf("ok int %d", len(fa)) {
+					bad = "Count != len(FindAll)"
+				}
+			case "exists":
+				if lim != 0 && r != "ok bool "+b01(len(fa) > 0) {
+					bad = "Exists != (len(FindAll) > 0)"
+				}
+			case "findFirst":
+				if lim != 0 && !(qSorted(q) && ties[i]) {
+					want := "ok doc none"
+					if len(fa) > 0 {
+						want = "ok doc " + fa[0]
+					}
+					if r != want {
+						bad = "FindFirst is not the first element of FindAll"
+					}
+				}
+			case "forEach":
+				if docs, ok := splitDocs(r); ok && !(qSorted(q) && ties[i]) {
+					want := fa
+					if n, ok := lines[i]["stopAfter"]; ok && asInt(n) < len(fa) {
+						want = fa[:asInt(n)]
+					}
+					if strings.Join(docs, ";") != strings.Join(want, ";") {
+						bad = "ForEach does not visit the FindAll sequence (or does not stop)"
+					}
+				}
+			}
+			if bad != "" {
+				c.Violation(&Replay{Backend: be, Stream: "history", Case: toIfaces(lines[:i+1]), FirstDivergence: i,
+					Expected: []string{"FindAll: " + strings.Join(fa, ";")}, Actual: []string{r}, Note: bad})
+				return false
+			}
+		}
+		if len(fa) > 0 {
+			c.NonTrivial(fmt.Sprint(q) + be)
+		}
+	}
+	return true
 }
